@@ -51,6 +51,16 @@ CHECKS = {
    text="The corpus of C01 (fixtures x structural and layer-aware mutations x every registered first layer) is pushed through the three non-recovering paths (DecodeFromBytes on 97 DecodingLayer types, NewPacket with SkipDecodeRecovery, DecodingLayerParser with IgnorePanic); TLC validates every recorded outcome against the outcome alphabet of the specification (a decode step ends in ok or error; Panic/Hang/Crash have no transition). Decoder source files that already panic on the pinned tree are listed as known findings (file granularity); a panic in any other file, a hang or a fatal crash is a violation.",
    design_ref="4/C19", technique="TLC trace validation of sampled real decodes against the specification's outcome alphabet",
    note="Memory safety of ~110 pure functions is outside what a state-machine specification decides; inputs are sampled; 22 source files are masked by known findings."),
+ "C08": dict(
+   category="model_checking",
+   text="Checksum.tla is the independent reference written in TLA+ (RFC 1071 sum/fold/complement, IPv4/IPv6 pseudo-headers read from the serialized header bytes, per-protocol coverage and field location, UDP 0->0xffff and 'no checksum' rules, GRE C bit). Apalache proves the transcribed FoldChecksum loop equal to the reference fold for all 2^32 accumulators; TLC checks an ideal sender/receiver with every single-bit flip; TLC validates traces of the real code: Fold and Sum events, every checksum written by SerializeTo for IPv4 header, TCP, UDP, ICMPv4, ICMPv6, GRE over v4/v6 (steered to 0x0000/0xffff and random outcomes; thorough: all 65536 outcomes), and VerifyChecksum / VerifyChecksums on unmodified and single-bit-flipped packets.",
+   design_ref="4/C08", technique="TLA+ reference computation + Apalache proof of the fold + TLC trace validation of real serialization/verification",
+   note="The Apalache proof concerns the transcription of the loop; the Go function is bound to it on sampled accumulators. Bit flips leave framing fields alone."),
+ "C12": dict(
+   category="model_checking",
+   text="PoolConc.tla models the assembler goroutines of both packages as pc-machines whose atomic steps are the code segments between lock acquisitions (the verifYield hooks), with a concurrent FlushAll. TLC checks the re-validating design exhaustively (no panic, no misdelivery, completion at most once, single entry per connection, deadlock freedom) and, for the code's actual shape, exports one schedule per distinct terminal state of each workload; every schedule is replayed on the real assemblers by a cooperative scheduler through the hooks and TLC validates the recorded callbacks against Reasm.tla (order per direction, lifecycle, no panic, no packet handed to another connection's stream, no overlapping callbacks, no stall); a free-running -race phase turns race reports into rejected events.",
+   design_ref="4/C12", technique="TLA+ concurrent model (TLC) + schedule replay with yield hooks + TLC trace validation + race-detector phase",
+   note="Exhaustive only at yield granularity; races found only by the uncontrolled phase; the recycled-connection window is a recorded known finding for both packages."),
  "C18": dict(
    category="model_checking",
    text="SerializeBuffer.tla: TLC proves exhaustively (all op sequences to the bound) that the transcription of writer.go refines the abstract buffer; every exported behaviour is replayed on the real buffer and every real step is validated by TLC against the abstract layer (contents, returned-slice length, window position, layers).",
